@@ -22,33 +22,35 @@ from props.c16 import _Desc
 LEVEL = "proof"
 MANIFEST = dict(
     text="Lean 4 theorems about `engineIter`, a statement-by-statement model of one `_thread_func` iteration (throttled pop(0) send, recvfrom + first-match "
-         "dispatch with handle/handled inside the swallowing try and nested <PACKT> re-dispatch, handler.loop = timeout -> retry / on_retry_failed, "
-         "_cleanup_handlers, _loop_func; phase order, throttle gap, pop index and timeout strictness are re-extracted from the source on every run), for ALL "
-         "programs of handlers, all registration orders, all environment sequences (clock advances in microseconds, at most one datagram per iteration) "
-         "interleaved with client calls, by induction over runs: fifo_sends (initial queue ++ queue_send calls = datagrams popped ++ final queue; transmitted = "
-         "popped when nothing fails), paced (consecutive transmissions >= 20001 us >= 1/50 s apart), first_match (the minimal accepting index, nobody if none), "
-         "exception_isolated (a raising handle/on_handled leaves queue, handler list, every timer untouched and never stops the engine; engine_survives: "
-         "no iteration stops it unless an on_retry_failed callback or _loop_func raises - neither call is guarded in _thread_func, finding "
-         "engine-stopped:on_retry_failed-raises), retry_exact (an "
-         "unanswered request that HAS BEEN transmitted once - a request that times out before its first transmission loses a retransmission, finding "
-         "retry-lost:timeout-before-first-transmission - with timeout T and N retries: never more than N re-queues, all to the original destination; while registered "
-         "re-queues + remaining retries = N and clock <= s0 + (N+1)(T+D); once gone exactly N re-queues and clock > s0 + (N+1)T; removed in the very iteration "
-         "that detects the (N+1)-th timeout; D = bound on the clock advance of one iteration), answered_removed (reply handled -> gone at this iteration's "
-         "clean-up, no re-queue then or later; answered_no_further_transmission: nothing of it is ever transmitted again PROVIDED no transmission of it was "
-         "pending in the queue when the reply was handled - the code does not purge the queue, finding answered:retransmission-after-answer), "
-         "handshake_completes (version -> channel -> config -> block at event level, any events before each reply with "
-         "<= budget timeouts, block stage = C01's threaded assembler surviving its prefix then one clean chain: connected and block = the spa's bytes). "
-         "Tie: translator facts + differential correspondence of the model driver with the real engine stepped through its own `_thread_func` on "
-         "boundary-aimed scripts, and of the handshake model with a real GeckoSpa against the real GeckoSimulator (both engines stepped, shipped snapshot) "
-         "under seeded loss. Search: monitors on the stepped real engine (send order, gaps, dispatch target, handler list, retransmission counts, "
-         "handshake outcome).",
+         "dispatch with handle/handled inside the swallowing try and nested <PACKT> re-dispatch, handler.loop = timeout -> retry / on_retry_failed inside its "
+         "per-handler try, _cleanup_handlers, guarded _loop_func; queue_send recording the destination; phase order, throttle gap, pop index, timeout "
+         "strictness, the two guards and the destination recording are re-extracted from the source on every run and the model is parameterised by them), "
+         "for ALL programs of handlers, all registration orders, all environment sequences (clock advances in microseconds, at most one datagram per "
+         "iteration) interleaved with client calls, by induction over runs: fifo_sends (initial queue ++ queue_send calls = datagrams popped ++ final queue; "
+         "transmitted = popped when nothing fails), paced (consecutive transmissions >= 20001 us >= 1/50 s apart), first_match (the minimal accepting index, "
+         "nobody if none), exception_isolated (a raising handle/on_handled leaves queue, handler list, every timer untouched) and engine_survives / "
+         "run_survives WITHOUT hypotheses: no handler exception (handle, on_handled, on_retry_failed, _loop_func) ever stops the engine; retry_exact (an "
+         "unanswered request queued for dst with timeout T and N retries: never more than N re-queues, all to dst; while registered re-queues + remaining "
+         "retries = N and clock <= s0 + (N+1)(T+D); once gone exactly N re-queues and clock > s0 + (N+1)T; retry_last_timeout: removed in the very iteration "
+         "that detects the (N+1)-th timeout; D = bound on the clock advance of one iteration) and retry_exact_on_the_wire (a FRESH request, queued once by the "
+         "client: exactly 1 + N datagrams transmitted, all to dst, none failed - also when the first timeout precedes the first transmission); "
+         "answered_removed (reply handled -> gone at this iteration's clean-up, no re-queue then or later) and answered_no_further_transmission_partial "
+         "(nothing of it is ever transmitted again PROVIDED no transmission of it was pending in the queue when the reply was handled - the code does not "
+         "purge the queue: recorded finding answered:retransmission-after-answer, witness in Lean and on the real engine); handshake_completes (version -> "
+         "channel -> config -> block at event level, any events before each reply with <= budget timeouts, block stage = C01's threaded assembler surviving "
+         "its prefix then one clean chain: connected and block = the spa's bytes). Tie: translator facts + differential correspondence of the model driver "
+         "with the real engine stepped through its own `_thread_func` on boundary-aimed scripts, and of the handshake model with a real GeckoSpa against the "
+         "real GeckoSimulator (both engines stepped, shipped snapshot) under seeded loss. Search: monitors on the stepped real engine (send order, gaps, "
+         "dispatch target, handler list, retransmission counts, engine liveness, handshake outcome).",
     note="PARTIAL: real threads are outside the step model - client threads calling queue_send/add_receive_handler are serialised between iterations (the code "
-         "uses self._lock for that), and `_thread_func` iterates self._receive_handlers WITHOUT the lock while client threads may append (a data race the step "
-         "model cannot exhibit; named, not claimed). Thorough-tier real-thread runs are tests, labelled as such. Trusted: Lean kernel, translator, the stepping "
-         "harness (mock socket, exact Fraction clock: IEEE rounding of clock subtraction is outside the model; on the exact clock a gap of exactly 20000 us is "
-         "throttled because the double 1.0/50 exceeds 1/50). can_handle is assumed total (a raising can_handle is caught by _process_received_data and the "
-         "datagram dropped); sendto is assumed not to raise. The handshake theorem is at event level (reply dispatched / request timed out), tied to the engine "
-         "model by the per-handler theorems and to the code by correspondence only.",
+         "uses self._lock for the lists; the new last_destination assignment in queue_send is outside the lock), and `_thread_func` iterates "
+         "self._receive_handlers WITHOUT the lock while client threads may append (a data race the step model cannot exhibit; named, not claimed). "
+         "Thorough-tier real-thread runs are tests, labelled as such. Trusted: Lean kernel, translator, the stepping harness (mock socket, exact Fraction "
+         "clock: IEEE rounding of clock subtraction is outside the model; on the exact clock a gap of exactly 20000 us is throttled because the double 1.0/50 "
+         "exceeds 1/50). can_handle is assumed total (a raising can_handle is caught by _process_received_data and the datagram dropped); sendto is assumed "
+         "not to raise. The handshake theorem is at event level (reply dispatched / request timed out), tied to the engine model by the per-handler theorems "
+         "and to the code by correspondence only. 'No further transmission once answered' holds only when nothing of the handler is pending in the queue "
+         "(known finding).",
     technique="Lean 4 induction over runs of a statement-level engine model parameterised by source-extracted facts + deterministic stepping of the real engine through its own _thread_func",
     design="5/C20")
 
@@ -393,8 +395,8 @@ class Rig:
             self.pending_pop = None
             self.events.append(f"fail({getattr(h, 'hid', '?')},{dest_id(d)})")
             self.features.add("send-failed")
-            origin = self.enq_origin[len(self.pop_log) - 1] if len(self.pop_log) <= len(self.enq_origin) else None
-            if origin == "retry" and d is None and h.row["sendable"]:
+            origin, had_dest = self.enq_origin[len(self.pop_log) - 1] if len(self.pop_log) <= len(self.enq_origin) else (None, False)
+            if origin == "retry" and d is None and had_dest and h.row["sendable"]:
                 self.violation("retry-lost:timeout-before-first-transmission",
                                "every retransmission queued by retry() is transmitted (1 + N datagrams for an unanswered request)",
                                f"handler {h.hid} timed out before its first transmission: retry() queued (handler, last_destination=None); the entry was "
@@ -408,7 +410,7 @@ class Rig:
         self.sent_log.append((self.clk.us, hid, dest))
         if h is not None:
             h.stats["first_sent"] = True
-            origin = self.enq_origin[len(self.pop_log) - 1] if len(self.pop_log) <= len(self.enq_origin) else None
+            origin = self.enq_origin[len(self.pop_log) - 1][0] if len(self.pop_log) <= len(self.enq_origin) else None
             if origin == "retry" and h.stats["answered"] and not h.stats["foreign"] and h.stats["regs"] == 1 and h._should_remove_handler \
                     and h not in self.sock._receive_handlers:
                 self.violation("answered:retransmission-after-answer", "a request is removed without further transmission once answered",
@@ -429,7 +431,10 @@ class Rig:
         origin = self.origin or "client"
         self.events.append(f"enq({getattr(h, 'hid', '?')},{dest_id(dest)})")
         self.enq_log.append((h, dest))
-        self.enq_origin.append(origin)
+        # (who called queue_send, had this handler instance been queued with a real destination before?)
+        self.enq_origin.append((origin, bool(getattr(h, "stats", {}).get("queued_dest"))))
+        if dest is not None and hasattr(h, "stats"):
+            h.stats["queued_dest"] = True
         if origin == "retry" and hasattr(h, "stats"):
             h.stats["retry_enq"] += 1
             if h.stats["retry_enq"] > h.row["retries"]:
@@ -729,10 +734,10 @@ def gen_script(ctx, rng, rig, maxops):
 
 
 CORPUS = [
-    # F1: B (timeout 15 ms < throttle period) is queued right after A was sent: B times out before its first transmission
-    ["new 0", "spec 1 0 0 0 0 n 1", "spec 2 0 0 15000 2 r 1", "reg 1", "reg 2", "qs 1 3", "iter 20001 1000 -", "qs 2 4",
+    # F1 (fixed in 0fc5c99): B (timeout 15 ms < throttle period) is queued right after A was sent: B times out before its first transmission
+    ["new 0", "spec 1 0 0 0 0 n 1", "spec 2 0 0 15000 2 r 1", "reg 1", "qs 1 3", "iter 20001 1000 -", "create 2", "reg 2", "qs 2 4",
      "iter 1000 14001 -", "iter 5001 1000 -", "iter 20001 1000 -", "iter 20001 1000 -", "iter 20001 1000 -", "iter 20001 1000 -"],
-    # F2: on_retry_failed raises
+    # F2 (fixed in 5389183): on_retry_failed raises
     ["new 0", "spec 1 1 0 50000 0 x 1", "spec 2 2 0 0 0 n 1", "reg 1", "reg 2", "qs 2 1", "iter 0 50001 -", "iter 20001 0 1", "iter 20001 0 1"],
     # F3: a retransmission still queued (throttled) when the reply is handled is transmitted after the handler is gone
     ["new 0", "spec 1 6 0 100000 2 r 1", "spec 2 0 0 0 0 n 1", "react 1 h 2 R 0", "reg 1", "qs 1 3", "iter 20001 0 -", "qs 2 4",
@@ -1066,9 +1071,9 @@ def real_thread_test(ctx):
                 res["problems"].append(f"gap {min(gaps):.5f}")
             nre = len([1 for _, d, _ in sent if d == b"RETRY"])
             if backlog:
-                # the request waits 160 ms behind 8 datagrams with a 60 ms timeout: the defect `retry-lost:timeout-before-first-transmission` on real threads
-                res.setdefault("finding_retry_lost_on_real_thread", []).append(f"N={n_retry}: {nre} of {1 + n_retry} datagrams transmitted")
-            elif nre != 1 + n_retry or s._receive_handlers:
+                # the request waits 160 ms behind 8 datagrams with a 60 ms timeout: its first timeouts precede its first transmission
+                res.setdefault("timeout_before_first_transmission_on_real_thread", []).append(f"N={n_retry}: {nre} of {1 + n_retry} datagrams transmitted")
+            if nre != 1 + n_retry or s._receive_handlers:
                 res["problems"].append(f"retry handler: {nre} transmissions for N={n_retry}, still registered={bool(s._receive_handlers)}")
             res["runs"] += 1
     return res
